@@ -8,8 +8,13 @@ EXTENDS Registry, Json
 CONSTANT Depth
 VARIABLE hist
 GenInit == Init /\ hist = <<>>
+\* a stale MarkActive needs a handle: the registration was ingested earlier in this behaviour
+StaleHasHandle == (obs'.a = "MarkActive" /\ obs'.stale) =>
+                    \E i \in 1..Len(hist) : /\ hist[i].a \in {"Track", "Register"}
+                                            /\ hist[i].p = obs'.p /\ hist[i].t = obs'.t /\ hist[i].s = obs'.s
 GenNext == /\ Len(hist) < Depth
            /\ NextNoLookup
+           /\ StaleHasHandle
            /\ hist' = Append(hist, obs')
 GenSpec == GenInit /\ [][GenNext]_<<vars, hist>>
 Emit == Len(hist) < Depth \/ PrintT(ToJson(hist))
